@@ -250,7 +250,9 @@ def explore_helper(ctx, kind, helper, nsobj, reg, real_params, calls, result,
     for r in range(len(optional) + 1):
         for subset in itertools.combinations(optional, r):
             for form in ('kw', 'pos'):
-                for valkind in ('sentinel', 'falsy', 'container', 'raises'):
+                for valkind in ('sentinel', 'falsy', 'container', 'raises0',
+                                'raises1', 'raises2', 'raises3', 'raises4',
+                                'raises5'):
                     n += 1
                     one_call(ctx, kind, helper, nsobj, reg, hparams,
                              required, subset, form, valkind, calls, result,
@@ -307,18 +309,21 @@ def one_call(ctx, kind, helper, nsobj, reg, hparams, required, subset, form,
          'args': [repr(a) for a in args],
          'kwargs': {k: repr(v) for k, v in kwargs.items()}, 'form': form}
     boom = None
-    if valkind == 'raises':
+    if valkind.startswith('raises'):
         import socketio
+        import asyncio
         boom = [KeyError('sid-%d' % n), ValueError('sid is not connected'),
                 socketio.exceptions.TimeoutError(),
                 socketio.exceptions.DisconnectedError(),
-                RuntimeError('application')][n % 5]
+                RuntimeError('application'),
+                # (the task that awaits the helper is being cancelled)
+                asyncio.CancelledError()][int(valkind[6:])]
     RAISE[0] = boom
     try:
         ret = getattr(nsobj, helper)(*args, **kwargs)
         if inspect.iscoroutine(ret):
             ret = loop.run_until_complete(ret)
-    except Exception as e:
+    except BaseException as e:
         if boom is None or e is not boom:
             ctx.violation(None, '%s.%s raised %r%s' % (
                 kind, helper, e, '' if boom is None else
